@@ -352,7 +352,7 @@ fn any_wf_len() -> u64 {
 //@ bounds: every well-formed inner length n < 2^{NBITS} (all residues mod 131088, exact multiples, n = 16); every target 0 <= p <= len; arbitrary pre-state (chunk number, cache length/offset <= 128 KiB, inner position <= n)
 //@ stubs: EncryptionLayerInternal::load_in_cache -> load contract (refined by h_enc_load_auth_refines); alloc::fmt::format -> empty; From<mla::Error> for io::Error -> payload-free
 //@ outside: inner streams >= 2^{NBITS} bytes; byte values (decided by the load contract + refinement harness)
-//@ replay: verif_replay_encrypt::enc_seek op=start n:u64 ipos:u64 ccn:u32 cl:u64 cp:u64 p:u64
+//@ replay: verif_replay_encrypt::enc_seek op=start n:u64 ipos:u64 ccn:u32 cl:u64 cp:u64 mode:bool p:u64
 #[kani::proof]
 #[kani::unwind(3)]
 #[kani::stub(alloc::fmt::format, nofmt)]
@@ -389,7 +389,7 @@ fn h_enc_seek_start() {
 //@ bounds: every well-formed inner length n < 2^{NBITS}; every offset -len <= d <= 0 (End(0), End(-4) as used to locate both footers); arbitrary pre-state
 //@ stubs: EncryptionLayerInternal::load_in_cache -> load contract (refined by h_enc_load_auth_refines); alloc::fmt::format -> empty; From<mla::Error> for io::Error -> payload-free
 //@ outside: inner streams >= 2^{NBITS} bytes; malformed lengths (C08 harnesses)
-//@ replay: verif_replay_encrypt::enc_seek op=end n:u64 ipos:u64 ccn:u32 cl:u64 cp:u64 d:i64
+//@ replay: verif_replay_encrypt::enc_seek op=end n:u64 ipos:u64 ccn:u32 cl:u64 cp:u64 mode:bool d:i64
 #[kani::proof]
 #[kani::unwind(3)]
 #[kani::stub(alloc::fmt::format, nofmt)]
@@ -434,7 +434,7 @@ fn positioned_internal(n: u64, c: u64) -> EncryptionLayerInternal<Abs> {
 //@ bounds: every well-formed inner length n < 2^{NBITS}; every current offset 0 <= c <= len in both reachable representations (freshly positioned; end of the previous chunk after reading it); every d with 0 <= c+d <= len
 //@ stubs: EncryptionLayerInternal::load_in_cache -> load contract; alloc::fmt::format -> empty; From<mla::Error> for io::Error -> payload-free
 //@ outside: pre-states not reachable by seek(Start)/sequential reads
-//@ replay: verif_replay_encrypt::enc_seek op=current n:u64 c:u64 by_read:bool d:i64
+//@ replay: verif_replay_encrypt::enc_seek op=current n:u64 c:u64 by_read:bool mode:bool d:i64
 #[kani::proof]
 #[kani::unwind(3)]
 #[kani::stub(alloc::fmt::format, nofmt)]
@@ -567,7 +567,7 @@ fn shrink_only_resize<T: Clone, A: core::alloc::Allocator>(v: &mut Vec<T, A>, ne
     v.truncate(new_len);
 }
 
-//@ props: C02 C03 C06 C08 C13
+//@ props: C01 C02 C03 C04 C06 C08 C10 C11 C13
 //@ scaled: yes
 //@ functions: layers::encrypt::EncryptionLayerInternal::load_in_cache (real body); layers::encrypt::build_nonce; subtle ct_eq on the 16-byte tag
 //@ bounds: SCALED build (feature mla_verif: chunk = 4 bytes, tag = 16 bytes unchanged); source delivering everything asked; inner length n <= 3*20+64, any start position q <= n (so every remaining length 0..=3 chunks incl. 1..15 bytes), any chunk counter, arbitrary previous cache
@@ -586,13 +586,13 @@ fn h_enc_load_auth_refines() {
     load_auth_body(false);
 }
 
-//@ props: C02 C03 C06 C08 C13
+//@ props: C01 C02 C03 C04 C06 C08 C10 C11 C13
 //@ scaled: yes
 //@ functions: layers::encrypt::EncryptionLayerInternal::load_in_cache (real body); layers::encrypt::build_nonce; subtle ct_eq on the 16-byte tag
 //@ bounds: SCALED build (feature mla_verif: chunk = 4 bytes, tag = 16 bytes unchanged); source whose FIRST read delivers at most 7 bytes (fewer than a tag, fewer than asked), later reads everything; inner length n <= 3*20+64, any start position q <= n (so every remaining length 0..=3 chunks incl. 1..15 bytes), any chunk counter, arbitrary previous cache
 //@ stubs: AesGcm256::new -> same struct via model constructors + ghost log; AesGcm256::decrypt -> IDEAL MAC (tag matches iff chunk authentic); alloc::io::default_read_to_end -> exactly two reads into spare capacity; alloc::fmt::format; From<mla::Error> for io::Error
 //@ outside: that AES-GCM is a secure MAC
-//@ replay: verif_replay_encrypt::enc_load q:u64 n:u64 ccn:u32 auth:bool
+//@ replay: verif_replay_encrypt::enc_load short=1 q:u64 n:u64 ccn:u32 auth:bool
 #[kani::proof]
 #[kani::unwind(34)]
 #[kani::stub(alloc::fmt::format, nofmt)]
@@ -664,7 +664,7 @@ fn copy_tag_skip<R: Read + ?Sized, W: Write + ?Sized>(r: &mut R, w: &mut W) -> i
     Ok((n1 + n2) as u64)
 }
 
-//@ props: C02 C05 C13
+//@ props: C02 C04 C05 C13
 //@ scaled: yes
 //@ functions: layers::encrypt::EncryptionLayerInternal::load_in_cache_unauthenticated (real body); AesGcm256::decrypt_unauthenticated over the model keystream
 //@ bounds: SCALED build (chunk = 4 bytes, tag 16); source delivering everything asked; inner length n <= 3*20+64, any start q <= n (every remaining length incl. a cut inside data or inside a tag), any chunk counter, arbitrary previous cache
@@ -682,13 +682,13 @@ fn h_enc_load_unauth_refines() {
     load_unauth_body(false);
 }
 
-//@ props: C02 C05 C13
+//@ props: C02 C04 C05 C13
 //@ scaled: yes
 //@ functions: layers::encrypt::EncryptionLayerInternal::load_in_cache_unauthenticated (real body); AesGcm256::decrypt_unauthenticated over the model keystream
 //@ bounds: SCALED build (chunk = 4 bytes, tag 16); source whose FIRST read delivers at most 7 bytes (fewer than a tag, fewer than asked), later reads everything; inner length n <= 3*20+64, any start q <= n (every remaining length incl. a cut inside data or inside a tag), any chunk counter, arbitrary previous cache
 //@ stubs: AesGcm256::new -> same struct via model constructors + ghost log; alloc::io::default_read_to_end -> exactly two reads into spare capacity; std::io::copy -> single read + write_all; alloc::fmt::format; From<mla::Error> for io::Error
 //@ outside: -
-//@ replay: verif_replay_encrypt::enc_load_unauth q:u64 n:u64 ccn:u32
+//@ replay: verif_replay_encrypt::enc_load_unauth short=1 q:u64 n:u64 ccn:u32
 #[kani::proof]
 #[kani::unwind(34)]
 #[kani::stub(alloc::fmt::format, nofmt)]
@@ -747,7 +747,7 @@ fn load_unauth_body(short: bool) {
 //@ bounds: production constants; every well-formed inner length n < 2^{NBITS}; every reader position 0 <= c <= len in both reachable representations; caller buffer length 0..=8; chunk authenticity symbolic
 //@ stubs: EncryptionLayerInternal::load_in_cache -> load contract (ideal MAC); alloc::fmt::format; From<mla::Error> for io::Error
 //@ outside: buffers > 8 bytes (the code only takes min(buffer, cache remainder)); byte values (std Cursor read is trusted)
-//@ replay: verif_replay_encrypt::enc_read n:u64 c:u64 by_read:bool blen:usize a0:bool a1:bool a2:bool a3:bool ar:bool
+//@ replay: verif_replay_encrypt::enc_read n:u64 c:u64 by_read:bool blen:usize a0:bool a1:bool a2:bool a3:bool ar:bool mode:bool
 #[kani::proof]
 #[kani::unwind(3)]
 #[kani::stub(alloc::fmt::format, nofmt)]
@@ -1058,7 +1058,7 @@ fn h_enc_fs_first_chunk_auth() {
 //@ bounds: production constants; ANY inner length (full u64, not only well-formed, incl. shorter than a tag); ANY SeekFrom variant with ANY u64/i64 offset; arbitrary pre-state; inner stream rejects negative/overflowing targets with an error like std::io::Cursor
 //@ stubs: EncryptionLayerInternal::load_in_cache -> load contract (its real body is total by h_enc_load_auth_refines); alloc::fmt::format; From<mla::Error> for io::Error
 //@ outside: nothing is asserted about results here — the claim is only that no panic (overflow, unwrap, index) is reachable
-//@ replay: verif_replay_encrypt::enc_seek_total n:u64 ipos:u64 ccn:u32 cl:u64 cp:u64 which:u8 off:u64
+//@ replay: verif_replay_encrypt::enc_seek_total n:u64 ipos:u64 ccn:u32 cl:u64 cp:u64 mode:bool which:u8 off:u64
 #[kani::proof]
 #[kani::unwind(3)]
 #[kani::stub(alloc::fmt::format, nofmt)]
@@ -1895,7 +1895,7 @@ fn h_enc_recipients() {
 //@ functions: layers::encrypt::build_nonce
 //@ bounds: every 8-byte archive nonce and every 32-bit chunk counter
 //@ outside: -
-//@ replay: verif_replay_encrypt::enc_nonce ctr:u32
+//@ replay: verif_replay_encrypt::enc_nonce _:skip8 ctr:u32
 #[kani::proof]
 #[kani::unwind(14)]
 fn h_enc_nonce() {
